@@ -227,6 +227,10 @@ pub async fn history(base: &PathBuf, seed: u64, steps: usize) -> Vec<Value> {
                         None => Ok((0, len)),
                         Some(rg) => rfc_slice(rg, len),
                     };
+                    if len == 0 && matches!(range, Some(Range::Suffix { .. })) {
+                        // a suffix of an empty object: RFC 9110 would serve nothing, S3 answers 416 — not judged
+                        continue;
+                    }
                     match (expect, r) {
                         (Err(()), Ok(_)) => note(&format!("get_object:unsatisfiable-served:{form}"), "an unsatisfiable range was served".into(), &log),
                         (Err(()), Err(_)) => {}
